@@ -503,6 +503,49 @@ class ConcDump(object):
         return (repr(sorted(self.got.items())), v)
 
 
+class ConcIds(object):
+    """E1 harness: two (three) threads build requests without a caller-supplied id: the generated ids are unique per call."""
+
+    audited = (J.__file__,)
+
+    def __init__(self, n, version):
+        self.n, self.version = n, version
+        self.got = {}
+        self.finished = False
+
+    def worker(self, k):
+        try:
+            first = J.dump([k], "m", None, self.version)
+            second = J.dump([k], "m", "" if k else None, self.version, None, None)
+            self.got[k] = (first.get("id"), second.get("id"))
+        except Exception as ex:
+            self.got[k] = ("raised", repr(ex))
+
+    def main(self):
+        from mc import sched
+        ts = [sched.MThread(target=self.worker, args=(k,)) for k in range(self.n)]
+        for t in ts:
+            t.start()
+        for t in ts:
+            t.join()
+        self.finished = True
+
+    def final(self, s):
+        if not self.finished:
+            return (s.status, [("C14/concurrent/does-not-terminate", "status %s" % s.status)])
+        ids = [i for k in sorted(self.got) for i in self.got[k]]
+        v = []
+        if any(not isinstance(i, str) or not i or i.startswith("raised") for i in ids) or len(set(ids)) != len(ids):
+            v.append(("C14/generated-id-not-unique-per-call", "%d threads building 2 id-less requests each obtained the ids %r" % (self.n, self.got)))
+        return ("unique" if not v else "clash", v)
+
+
+def make_conc_ids(n, version):
+    from mc import sched
+    sched.install()
+    return lambda: ConcIds(n, version)
+
+
 def make_conc(i, j):
     from mc import sched
     sched.install()
@@ -517,6 +560,10 @@ def leg_concurrent(part, tier, shard, nshards):
         for j in idx:
             if i <= j:
                 hs.append((("checks.c14", "make_conc", (i, j)), "conc-dump/%d-%d" % (i, j)))
+    for version in (2.0, 1.0):
+        hs.append((("checks.c14", "make_conc_ids", (2, version)), "conc-ids/2/%s" % version))
+    if tier == "thorough":
+        hs.append((("checks.c14", "make_conc_ids", (3, 2.0)), "conc-ids/3/2.0"))
     levels = [{"K": 0, "T": 0}, {"K": 1, "T": 0}, {"K": 2, "T": 0}]
     total = explore.explore_adaptive(hs, levels, 1500 if tier == "quick" else 40000)
     part.merge(total)
@@ -539,7 +586,7 @@ META = {
     "technique": "bounded-exhaustive enumeration of dump/dumps argument combinations against a reference envelope model; overlapping constructions "
     "(re-entrant through a serialisation method, and two threads under the schedule explorer at line granularity)",
     "rule": "full cartesian product of the argument alphabets (method x params x rpcid x version x methodresponse x notify x config), "
-    "each fed to the real dump and dumps; round trips of every JSON value of depth 1 (thorough 2) and of dictionaries with 1-3 non-string and mixed-kind keys (int, float, bool, None, str) as parameter, result and Fault data; a case is non-trivial when the reference model defines its outcome "
+    "each fed to the real dump and dumps; two (thorough three) threads each building two id-less requests under every schedule within the completed preemption level at line granularity of jsonrpc.py (generated ids unique per call); round trips of every JSON value of depth 1 (thorough 2) and of dictionaries with 1-3 non-string and mixed-kind keys (int, float, bool, None, str) as parameter, result and Fault data; a case is non-trivial when the reference model defines its outcome "
     "(request/notification/result/error envelope or mandatory TypeError/ValueError); distinct by encoded argument tuple",
     "bounds": {
         "quick": {"methods": len(METHODS), "params": len(PARAMS), "rpcids": len(RPCIDS), "versions": len(VERSIONS), "roundtrip_depth": 1},
